@@ -425,7 +425,9 @@ def build(case, ctx):
         data = pre + fr(4, pl, declared)
         if place == 5:  # twice
             data += fr(4, pl)
-        return [(sid, data, bool(fin))], (sk, "SETTINGS")
+        # whatever the peer's SETTINGS say (or leave out) about HTTP/3 datagrams, a datagram that follows is still
+        # network input: dropped, delivered or answered with an HTTP/3 error, never an exception
+        return [(sid, data, bool(fin)), ("dgram", V(0) + b"after-settings", False), ("dgram", V(4, 8) + b"", False)], (sk, "SETTINGS")
 
     if fam == "idframe":
         ti, vi, tgt, pre_settings = p
